@@ -65,7 +65,13 @@ func w3DeathSig(prop string) func(stderr string, cs json.RawMessage) (string, st
 		if len(msg) > 160 {
 			msg = msg[:160]
 		}
-		return "process-died/" + fr + "/" + firstWords(msg, 6), "a product goroutine brought the process down: " + tail(rest, 1800)
+		sig := "process-died/" + fr + "/" + firstWords(msg, 6)
+		if strings.Contains(fr, "raftLog).commitTo") && strings.Contains(stderr, "VERIF-MARK group-of-a-deleted-dataset-loaded-again") {
+			// raft's "log lost" panic, in a run in which a node loaded again - with an empty log,
+			// while replaying its catalogue - the group of a dataset whose log it had deleted
+			sig = "deleted-group-loaded-again-during-replay/" + sig
+		}
+		return sig, "a product goroutine brought the process down: " + tail(rest, 1800)
 	}
 }
 
